@@ -171,6 +171,19 @@ pub fn run() -> Report {
         p.wit = vec![vec![n, 3]];
         cases.push(Case { coin: "bitcoin", verify: true, txs: vec![p], hdr: None, n_blocks: 3, label: format!("witness_item_len={:#x}", n) });
     }
+    // items far beyond any reader buffer / chunk size: 1 MiB + 1 and 2.5 MiB scripts and witness items
+    for n in [1_048_577usize, 2_621_440] {
+        let mut p = base.clone();
+        p.sig_lens = vec![n];
+        cases.push(Case { coin: "bitcoin", verify: true, txs: vec![p], hdr: None, n_blocks: 3, label: format!("scriptsig_len={:#x}", n) });
+        let mut p = base.clone();
+        p.spk_lens = vec![n, 25];
+        cases.push(Case { coin: "litecoin", verify: true, txs: vec![p], hdr: None, n_blocks: 3, label: format!("scriptpubkey_len={:#x}", n) });
+        let mut p = base.clone();
+        p.segwit = true;
+        p.wit = vec![vec![3, n, 2]];
+        cases.push(Case { coin: "bitcoin", verify: true, txs: vec![p], hdr: None, n_blocks: 3, label: format!("witness_item_len={:#x}", n) });
+    }
     if thorough {
         // one 100 KB script; pairwise combination of two boundary dimensions
         let mut p = base.clone();
@@ -235,7 +248,7 @@ pub fn run() -> Report {
         cases.push(Case { coin: "bitcoin", verify: true, txs: vec![p], hdr: None, n_blocks: 3, label: format!("value={:#x}", val) });
     }
     rep.rule = "product of the core tx-shape alphabet (segwit x n_in x n_out x |scriptSig| x |scriptPubKey| x witness-stack shape) as 2nd tx of the middle block, ordered shape pairs in one block, one-dimension CompactSize boundary sweeps (0xfc,0xfd,0xfe,0xffff,0x10000) for 7 count/length dimensions, u32/u64 field value sweeps; x coins x --verify; non-trivial = distinct case whose run wrote at least 2 block rows".into();
-    rep.bound = json!({"cases": cases.len(), "product_coins": prod_coins, "blocks": "2..4", "max_count": "0x10000"});
+    rep.bound = json!({"cases": cases.len(), "product_coins": prod_coins, "blocks": "2..4", "max_count": "0x10000", "max_item_bytes": 2621440});
     rep.not_covered = vec!["counts >= 2^32 (9-byte CompactSize)".into(), "non-canonical CompactSize encodings (consensus-invalid, excluded by design)".into(), "tx/block versions >= 2^31".into()];
     let root = refmodel::world::scratch_root();
     let parts = par_fold(
